@@ -15,13 +15,33 @@ package stdlibspec
 //@ smt (assert (forall ((t O$time.Time)) (! (and (bvsgt (ns t) #xffc00000000000000000) (bvslt (ns t) #x00400000000000000000)) :pattern ((ns t)))))
 //@ smt (declare-const zero$O$time.Time O$time.Time)
 //@ smt (assert (= (ns zero$O$time.Time) #x00000000000000000000))
-//@ smt (define-fun tsub ((a O$time.Time) (b O$time.Time)) (_ BitVec 64) (let ((d (bvsub (ns a) (ns b)))) (ite (bvsgt d #x00007fffffffffffffff) #x7fffffffffffffff (ite (bvslt d #xffff8000000000000000) #x8000000000000000 ((_ extract 63 0) d)))))
-//@ smt (define-fun satadd ((a (_ BitVec 64)) (b (_ BitVec 64))) (_ BitVec 64) (let ((s (bvadd ((_ sign_extend 1) a) ((_ sign_extend 1) b)))) (ite (bvsgt s #b00111111111111111111111111111111111111111111111111111111111111111) #x7fffffffffffffff (ite (bvslt s #b11000000000000000000000000000000000000000000000000000000000000000) #x8000000000000000 ((_ extract 63 0) s)))))
-//@ smt (define-fun satsub ((a (_ BitVec 64)) (b (_ BitVec 64))) (_ BitVec 64) (let ((s (bvsub ((_ sign_extend 1) a) ((_ sign_extend 1) b)))) (ite (bvsgt s #b00111111111111111111111111111111111111111111111111111111111111111) #x7fffffffffffffff (ite (bvslt s #b11000000000000000000000000000000000000000000000000000000000000000) #x8000000000000000 ((_ extract 63 0) s)))))
 //@ spec func ns(t time.Time) sbv80 # smt
-//@ spec func tsub(a time.Time, b time.Time) time.Duration # smt
-//@ spec func satadd(a time.Duration, b time.Duration) time.Duration # smt
-//@ spec func satsub(a time.Duration, b time.Duration) time.Duration # smt
+//@ spec func clamp64(d sbv80) time.Duration = ite(d > 9223372036854775807, 9223372036854775807, ite(d < -9223372036854775808, -9223372036854775808, trunc(d, 64)))
+//@ spec func clamp65(d sbv65) time.Duration = ite(d > 9223372036854775807, 9223372036854775807, ite(d < -9223372036854775808, -9223372036854775808, trunc(d, 64)))
+// tsub = time.Time.Sub (saturating); satadd / satsub = saturating int64 arithmetic.
+// Opaque: function VCs see them as uninterpreted functions plus the lemmas
+// below; each lemma is proved once against the definition (obligation lemma/<name>).
+//@ spec func tsub(a time.Time, b time.Time) time.Duration = clamp64(ns(a) - ns(b)) # opaque
+//@ spec func satadd(a time.Duration, b time.Duration) time.Duration = clamp65(sext(a, 65) + sext(b, 65)) # opaque
+//@ spec func satsub(a time.Duration, b time.Duration) time.Duration = clamp65(sext(a, 65) - sext(b, 65)) # opaque
+//@ lemma tsub-mono-left: forall a time.Time, b time.Time, c time.Time :: ns(a) <= ns(b) ==> tsub(a, c) <= tsub(b, c)
+//@   reveal tsub
+//@ lemma tsub-mono-right: forall a time.Time, b time.Time, c time.Time :: ns(b) <= ns(c) ==> tsub(a, c) <= tsub(a, b)
+//@   reveal tsub
+//@ lemma tsub-sign: forall a time.Time, b time.Time :: (ns(a) <= ns(b) <==> tsub(a, b) <= 0) && (ns(a) < ns(b) <==> tsub(a, b) < 0)
+//@   reveal tsub
+//@ lemma satadd-mono-right: forall x time.Duration, y time.Duration, z time.Duration :: y <= z ==> satadd(x, y) <= satadd(x, z)
+//@   reveal satadd
+//@ lemma satadd-mono-left: forall x time.Duration, y time.Duration, z time.Duration :: y <= z ==> satadd(y, x) <= satadd(z, x)
+//@   reveal satadd
+//@ lemma satadd-nonneg: forall x time.Duration, y time.Duration :: x >= 0 && y >= 0 ==> satadd(x, y) >= x && satadd(x, y) >= y && satadd(x, y) == ite(x > 9223372036854775807 - y, 9223372036854775807, x + y)
+//@   reveal satadd
+//@ lemma satadd-zero: forall x time.Duration :: satadd(x, 0) == x && satadd(0, x) == x
+//@   reveal satadd
+//@ lemma satsub-nonneg: forall x time.Duration, y time.Duration :: x >= 0 && y >= 0 ==> satsub(x, y) == x - y
+//@   reveal satsub
+//@ lemma satsub-mono: forall x time.Duration, y time.Duration, z time.Duration :: x <= y ==> satsub(x, z) <= satsub(y, z)
+//@   reveal satsub
 //@ spec const maxI64 = 9223372036854775807
 //@ spec const minI64 = -9223372036854775808
 //@ spec const sec = 1000000000
@@ -75,31 +95,35 @@ package stdlibspec
 //@   ensures result == durSecs(d)
 
 // ---------------------------------------------------------------------------
-// strconv
+// strconv — decimal strings. dec64(s) is the value of an all-digit string
+// saturated at maxI64; decOverflow(s) says the true value exceeds maxI64.
+// All bit-vector: no integer/bit-vector bridge.
 //@ spec func isDigits(s string) bool
-//@ spec func decval(s string) mathint
+//@ spec func dec64(s string) int64
+//@ spec func decOverflow(s string) bool
 //@ spec func isPlusDigits(s string) bool = len(s) > 1 && s[0] == '+' && isDigits(s[1:])
 //@ spec func isMinusDigits(s string) bool = len(s) > 1 && s[0] == '-' && isDigits(s[1:])
-//@ axiom isDigits-shape: forall s string :: isDigits(s) ==> len(s) > 0 && s[0] >= '0' && s[0] <= '9' && decval(s) >= 0
-//@ axiom decval-nonneg: forall s string :: decval(s) >= 0
+//@ axiom isDigits-shape: forall s string :: isDigits(s) ==> len(s) > 0 && s[0] >= '0' && s[0] <= '9'
+//@ axiom isDigits-def: forall s string :: isDigits(s) <==> (len(s) > 0 && (forall i int :: 0 <= i && i < len(s) ==> s[i] >= '0' && s[i] <= '9'))
+//@ axiom dec64-range: forall s string :: dec64(s) >= 0 && (decOverflow(s) ==> dec64(s) == maxI64)
 //@ extern strconv.ParseInt(s, base, bitSize)
 //@   pure
 //@   requires base == 10 && bitSize == 64
-//@   ensures isDigits(s) && decval(s) <= maxI64 ==> result1 == nil && mathint(result0) == decval(s)
-//@   ensures isDigits(s) && decval(s) > maxI64 ==> result1 != nil && result0 == maxI64
-//@   ensures isPlusDigits(s) && decval(s[1:]) <= maxI64 ==> result1 == nil && mathint(result0) == decval(s[1:])
-//@   ensures isPlusDigits(s) && decval(s[1:]) > maxI64 ==> result1 != nil && result0 == maxI64
-//@   ensures isMinusDigits(s) && decval(s[1:]) <= maxI64 + 1 ==> result1 == nil && mathint(result0) == 0 - decval(s[1:])
-//@   ensures isMinusDigits(s) && decval(s[1:]) > maxI64 + 1 ==> result1 != nil && result0 == minI64
+//@   ensures isDigits(s) && !decOverflow(s) ==> result1 == nil && result0 == dec64(s)
+//@   ensures isDigits(s) && decOverflow(s) ==> result1 != nil && result0 == maxI64
+//@   ensures isPlusDigits(s) && !decOverflow(s[1:]) ==> result1 == nil && result0 == dec64(s[1:])
+//@   ensures isPlusDigits(s) && decOverflow(s[1:]) ==> result1 != nil && result0 == maxI64
+//@   ensures isMinusDigits(s) && !decOverflow(s[1:]) ==> result1 == nil && result0 == 0 - dec64(s[1:])
+//@   ensures isMinusDigits(s) && decOverflow(s[1:]) ==> result0 == minI64
 //@   ensures !isDigits(s) && !isPlusDigits(s) && !isMinusDigits(s) ==> result1 != nil && result0 == 0
 //@ extern strconv.Atoi(s)
 //@   pure
-//@   ensures isDigits(s) && decval(s) <= maxI64 ==> result1 == nil && mathint(result0) == decval(s)
-//@   ensures isDigits(s) && decval(s) > maxI64 ==> result1 != nil && result0 == maxI64
-//@   ensures isPlusDigits(s) && decval(s[1:]) <= maxI64 ==> result1 == nil && mathint(result0) == decval(s[1:])
-//@   ensures isPlusDigits(s) && decval(s[1:]) > maxI64 ==> result1 != nil && result0 == maxI64
-//@   ensures isMinusDigits(s) && decval(s[1:]) <= maxI64 + 1 ==> result1 == nil && mathint(result0) == 0 - decval(s[1:])
-//@   ensures isMinusDigits(s) && decval(s[1:]) > maxI64 + 1 ==> result1 != nil && result0 == minI64
+//@   ensures isDigits(s) && !decOverflow(s) ==> result1 == nil && result0 == dec64(s)
+//@   ensures isDigits(s) && decOverflow(s) ==> result1 != nil && result0 == maxI64
+//@   ensures isPlusDigits(s) && !decOverflow(s[1:]) ==> result1 == nil && result0 == dec64(s[1:])
+//@   ensures isPlusDigits(s) && decOverflow(s[1:]) ==> result1 != nil && result0 == maxI64
+//@   ensures isMinusDigits(s) && !decOverflow(s[1:]) ==> result1 == nil && result0 == 0 - dec64(s[1:])
+//@   ensures isMinusDigits(s) && decOverflow(s[1:]) ==> result0 == minI64
 //@   ensures !isDigits(s) && !isPlusDigits(s) && !isMinusDigits(s) ==> result1 != nil && result0 == 0
 //@ spec func itoa(n int) string
 //@ extern strconv.Itoa(i)
@@ -126,9 +150,9 @@ package stdlibspec
 //@   ensures !has(h, canon(key)) ==> len(result) == 0
 //@ extern (net/http.Header).Clone(h)
 //@   pure
-//@   fresh
 //@   ensures h == nil ==> result == nil
-//@   ensures h != nil ==> result != nil && (forall k string :: has(result, k) == has(h, k) && (has(h, k) ==> len(get(result, k)) == len(get(h, k)) && (len(get(h, k)) > 0 ==> get(result, k)[0] == get(h, k)[0])))
+//@   ensures h != nil ==> result != nil && fresh(result)
+//@   ensures forall k string :: has(result, k) == has(h, k) && len(get(result, k)) == len(get(h, k)) && hget(result, k) == hget(h, k)
 //@ extern net/http.CanonicalHeaderKey(s)
 //@   pure
 //@   ensures result == canon(s)
@@ -139,9 +163,13 @@ package stdlibspec
 //@ axiom trimOWS-len: forall s string :: len(trimOWS(s)) <= len(s)
 
 // http.ParseTime: on success the result has whole-second granularity.
+//@ spec func validHTTPTime(s string) bool
+//@ spec func httpTime(s string) time.Time
+//@ axiom httpTime-nonempty: forall s string :: validHTTPTime(s) ==> len(s) > 0
 //@ extern net/http.ParseTime(text)
 //@   pure
-//@   ensures result1 == nil ==> ns(result0) % 1000000000 == 0
+//@   ensures (result1 == nil) == validHTTPTime(text)
+//@   ensures result1 == nil ==> result0 == httpTime(text)
 
 // ---------------------------------------------------------------------------
 // pure helpers with unconstrained results
@@ -183,3 +211,18 @@ package stdlibspec
 //@   ensures result >= -1 && result < len(s)
 //@   ensures result >= 0 ==> s[result] == c
 //@   ensures forall i int :: result < i && i < len(s) ==> s[i] != c
+
+// ---------------------------------------------------------------------------
+// net/http.Request helpers
+//@ extern (*net/http.Request).Context(r)
+//@   pure
+//@ extern (*net/http.Request).Clone(r, ctx)
+//@   pure
+//@   fresh
+//@   ensures result != nil && result.Method == r.Method && result.URL != nil
+//@   ensures r.Header != nil ==> result.Header != nil && fresh(result.Header)
+//@   ensures forall k string :: has(result.Header, k) == has(r.Header, k) && hget(result.Header, k) == hget(r.Header, k)
+//@ extern (*net/http.Request).WithContext(r, ctx)
+//@   pure
+//@   fresh
+//@   ensures result != nil && result.Method == r.Method && result.URL == r.URL && result.Header == r.Header
